@@ -172,6 +172,10 @@ def run(case, tape: Tape, ctx):
         try:
             comp = exec_sim(colls, tape, case["knobs"], ctx, info=RunInfo())
         except TaskError as te:
+            if isinstance(te.exc, REFUSALS):
+                # a refusal raised at compute time is C19's business, not a laziness question
+                ctx.skip_slot("refused-at-compute")
+                return
             cls, msg, det = classify_exception(te)
             det["api"] = api
             raise Violation(cls, msg, **det)
